@@ -163,6 +163,15 @@ pub fn identity(i: usize) -> Arc<Identity> {
 }
 pub const N_IDENTITIES: usize = 5;
 
+/// generate the process-wide identities now, on the calling (unwatched) thread: key generation - the search for an
+/// Ed25519 key with a given prefix in particular - must not be charged to the CPU budget of whichever case asks first
+pub fn prewarm(special: bool) {
+    let _ = identity(0);
+    if special {
+        let _ = identity(SPECIAL_IDENTITIES[0]);
+    }
+}
+
 pub enum TlsState {
     Start(SslAcceptor),
     Mid(MidHandshakeSslStream<MemPipe>),
